@@ -77,16 +77,16 @@ func (e *e1) checkMultivariant() {
 	}
 	r := e.drv.GetDirect(path)
 	if r.Panic != "" {
-		res.add("C16", "panic while serving the multivariant playlist: %s", r.Panic)
+		e.viol("C16", "panic while serving the multivariant playlist: %s", r.Panic)
 		return
 	}
 	if r.Status != 200 {
-		res.add("C16", "multivariant playlist answered status %d although media playlists are available", r.Status)
+		e.viol("C16", "multivariant playlist answered status %d although media playlists are available", r.Status)
 		return
 	}
 	text := string(r.Body)
 	bad := func(prop, f string, a ...any) {
-		res.add(prop, "multivariant playlist, observation %d: %s\n%s", e.obsN, fmt.Sprintf(f, a...), text)
+		e.viol(prop, "multivariant playlist, observation %d: %s\n%s", e.obsN, fmt.Sprintf(f, a...), text)
 	}
 	if e.opt.OnPlaylist != nil {
 		e.opt.OnPlaylist("index", text)
